@@ -53,7 +53,9 @@ CFG = {
             "ab / abstar: random histories over {a,b}^<=4 and {a,b,*}^<=3 with queries interleaved; bytes: arbitrary bytes incl. 00 7f 80 ff "
             "with dense prefix relations; nul: the same with keys ending in 0x00; adversarial: prefix ladders and the full 256-fan; "
             "long: keys of 7/8/9/15/16/17/24/33 bytes in clusters sharing every prefix length and first differing at every bit offset, "
-            "eight one-bit variants per byte around the 8-byte block borders, prefix chains of one long key, word pairs. "
+            "eight one-bit variants per byte around the 8-byte block borders, prefix chains of one long key, word pairs; "
+            "keys of 63/64/65/66/96/130 bytes differing in one character at positions 0, 31, 62..65, len-2, len-1 with Match patterns "
+            "of the same lengths (wildcards at those positions: single, pairs, all) and prefix/order queries. "
             "A case is non-trivial when it has >= 3 effective mutations and at least one Put/Delete of a key that is a proper prefix or "
             "extension of a held key; distinct = distinct (implementation, mutator sequence).",
     "assumptions": ["Go int arithmetic does not overflow (sizes, ranks and bit positions stay below 2^31)",
